@@ -13,17 +13,19 @@ import pandapower as pp
 from vf import coqrun as cq
 from vf import c17_opf as G
 
-RULE = ("OPF problems on 2-5 bus meshed 20 kV nets with tight voltage bands and line ratings, 0-2 gens with a controllable "
+RULE = ("AC OPF (init flat / pf / results) and DC OPF problems on 2-5 bus meshed 20 kV nets with tight voltage bands and line ratings, in 55 % a 20/10 kV "
+        "transformer (shift 0/30/150/330 deg, tap, rating 1-2 MVA, limit 50-100 %) whose loading limit binds for export and/or import, "
+        "dcline setpoints p_mw > 0, < 0 and = 0, controllable gens with own vm_pu setpoints and narrow q limits, 0-2 gens with a controllable "
         "column (30 % fixed) and scaling in {1, 0.5}, controllable/fixed sgens, loads, storages, 0-2 dclines with loss_percent "
         "in {0,2,5} and loss_mw in {0,1/16}, 15 % of the elements out of service, missing limit columns (NaN) on ext_grids; "
         "non-trivial = at least two OPF variables besides the ext_grid or a dcline or a fixed generator")
-ASSUMPTIONS = ["PIPS is an oracle: only runs reporting success are judged; result tolerances: 1e-4 MW/Mvar, 1e-5 p.u., 0.01 % loading; its feasibility test is relative to the size of the slack variables, so the reproduction run is compared with 3e-3 MW (1e-2 MW when a limit column is missing and the 1e9 default limits enter the slacks)",
+ASSUMPTIONS = ["PIPS is an oracle: only runs reporting success are judged; result tolerances: 1e-4 MW/Mvar, 1e-5 p.u., 0.05 % loading (0.02 % excess observed at a binding transformer limit); its feasibility test is relative to the size of the slack variables, so the reproduction run is compared with 3e-3 MW (1e-2 MW when a limit column is missing and the 1e9 default limits enter the slacks)",
                "power flow (runpp / rundcpp) convergence is an oracle for the reproduction run",
                "sqrt(3) enters the line rating as a positive number s3 (cancels in the theorem); the harness passes numpy's value"]
 TRUSTED = ["white-box capture by swapping the module attribute pandapower.optimal_powerflow.opf in the harness process"]
 KINDS = []   # both recorded defects are repaired in /repo; their witnesses stay in corpus/C16 and must pass
 KIND_COQ = {"gen": "KGen", "ext_grid": "KExt", "sgen": "KSgen", "load": "KLoad", "storage": "KStorage"}
-TOLP, TOLV, TOLL = 1e-4, 1e-5, 1e-2
+TOLP, TOLV, TOLL = 1e-4, 1e-5, 5e-2
 
 
 def _oq(x):
@@ -106,7 +108,14 @@ def correspondence(ctx, net, ac, desc, terms, pend):
         vn = float(net.bus.vn_kv.at[row["from_bus"]])
         terms.append("run_rate %s %s %s %s %s %s" % (cq.q(float(row["max_loading_percent"])), cq.q(float(row["max_i_ka"])),
                                                      cq.q(float(row["df"])), cq.q(float(row["parallel"])), cq.q(vn), cq.q(s3)))
-        pend.append(("RATE_A of line %d" % idx, fr(cap["branch"][lf + pos, RATE_A].real) if len(cap["branch"]) == len(net.line) else None, desc))
+        pend.append(("RATE_A of line %d" % idx, fr(cap["branch"][lf + pos, RATE_A].real) if len(cap["branch"]) == len(net.line) + len(net.trafo) else None, desc))
+    if len(net.trafo) and len(cap["branch"]) == len(net.line) + len(net.trafo):
+        tf, tt = cap["lookups"]["branch"]["trafo"]
+        for pos, (idx, row) in enumerate(net.trafo.iterrows()):
+            terms.append("run_rate_trafo %s %s %s %s" % (cq.q(float(row["max_loading_percent"])), cq.q(float(row["sn_mva"])),
+                                                          cq.q(float(row["df"])), cq.q(float(row["parallel"]))))
+            pend.append(("RATE_A of trafo %d" % idx, fr(cap["branch"][tf + pos, RATE_A].real), desc))
+            ctx.count("row_trafo")
     # ---- dclines
     if len(net.dcline):
         n = len(net.dcline)
@@ -169,9 +178,15 @@ def _show(x):
 
 
 # ------------------------------------------------------------------ oracle
-def run_opf(net, ac):
+def run_opf(net, ac, init="flat"):
     try:
-        (pp.runopp if ac else pp.rundcopp)(net)
+        if not ac:
+            pp.rundcopp(net)
+        elif init == "results":
+            pp.runopp(net)                  # provides the results the second run starts from
+            pp.runopp(net, init="results")
+        else:
+            pp.runopp(net, init=init)
         return True, None
     except Exception as e:
         return False, type(e).__name__
@@ -228,6 +243,14 @@ def check_constraints(ctx, net, ac, desc):
             ld = float(net.res_line.loading_percent.at[i])
             if ld > float(net.line.max_loading_percent.at[i]) + TOLL:
                 bad.append(("spec", "line %d loading %.4f %% > %.1f %%" % (i, ld, float(net.line.max_loading_percent.at[i]))))
+    for i in net.trafo.index:
+        if bool(net.trafo.in_service.at[i]):
+            ld = float(net.res_trafo.loading_percent.at[i])
+            lim = float(net.trafo.max_loading_percent.at[i])
+            ctx.count("trafo_" + ("binding" if ld > lim - 0.5 else "slack") + ("_export" if float(net.res_trafo.p_hv_mw.at[i]) < 0 else "_import"))
+            if ld > lim + TOLL:
+                bad.append(("spec", "trafo %d loading %.4f %% > %.1f %% (p_hv=%.4f MW, shift %g deg)" % (
+                    i, ld, lim, float(net.res_trafo.p_hv_mw.at[i]), float(net.trafo.shift_degree.at[i]))))
     for r in net.dcline.itertuples():
         if not bool(r.in_service):
             continue
@@ -310,6 +333,8 @@ def reproduce(ctx, net, ac, desc, Fg):
         cmp_ += [("res_bus", "vm_pu", 1e-4), ("res_line", "q_from_mvar", tp)]
     if len(net.dcline):
         cmp_ += [("res_dcline", "p_to_mw", tp)]
+    if len(net.trafo):
+        cmp_ += [("res_trafo", "p_hv_mw", tp), ("res_trafo", "p_lv_mw", tp)] + ([("res_trafo", "q_hv_mvar", tp)] if ac else [])
     for tab, col, tol in cmp_:
         if len(net[tab]) == 0:
             continue
@@ -330,8 +355,8 @@ def reproduce(ctx, net, ac, desc, Fg):
         ctx.count("reproduction_ok")
 
 
-def one_case(ctx, net, ac, tag, terms, pend, sample=False):
-    desc = {"net": pp.to_json(net), "ac": ac}
+def one_case(ctx, net, ac, tag, terms, pend, sample=False, init="flat"):
+    desc = {"net": pp.to_json(net), "ac": ac, "init": init}
     cap = correspondence(ctx, net, ac, desc, terms, pend)
     nvar = sum(int(net[t].in_service[net[t].controllable.astype(bool)].sum()) if "controllable" in net[t].columns else
                (int(net[t].in_service.sum()) if t == "gen" else 0) for t in ("gen", "sgen", "load", "storage"))
@@ -340,8 +365,13 @@ def one_case(ctx, net, ac, tag, terms, pend, sample=False):
     Fg = guards(net)
     for k in Fg:
         ctx.count("guard_fails:" + k)
-    ok, exc = run_opf(net, ac)
+    ok, exc = run_opf(net, ac, init)
     ctx.count("%s_%s" % (tag, "converged" if ok else "not_converged:" + str(exc)))
+    if ac:
+        ctx.count("init_" + init)
+    for r in net.dcline.itertuples():
+        if bool(r.in_service):
+            ctx.count("dcline_p_mw_" + ("pos" if r.p_mw > 0 else "zero" if r.p_mw == 0 else "neg"))
     ctx.case(desc, nontrivial=nontriv, sample={"input": {"gen": json.loads(net.gen.to_json()), "dcline": json.loads(net.dcline.to_json())},
                                                "impl_gen_rows": cap["gen"][:, :10].tolist() if cap else None} if sample else None)
     if not ok:
@@ -350,19 +380,55 @@ def one_case(ctx, net, ac, tag, terms, pend, sample=False):
     reproduce(ctx, net, ac, desc, Fg)
 
 
+def add_trafo(net, rng):
+    """a 20/10 kV transformer (phase shift, tap) with a small rating whose loading limit binds: cheap generation and/or
+    a load that wants to consume behind it, so that the limit is reached in lv->hv and in hv->lv direction"""
+    hv = int(rng.choice(list(net.bus.index)))
+    lv = pp.create_bus(net, vn_kv=10.0, min_vm_pu=float(net.bus.min_vm_pu.iloc[0]), max_vm_pu=float(net.bus.max_vm_pu.iloc[0]))
+    pp.create_transformer_from_parameters(net, hv, lv, sn_mva=rng.choice([1.0, 2.0]), vn_hv_kv=20.0, vn_lv_kv=10.0,
+                                          vkr_percent=0.5, vk_percent=rng.choice([4.0, 6.0]), pfe_kw=0.0, i0_percent=0.0,
+                                          shift_degree=rng.choice([0.0, 30.0, 150.0, 330.0]), tap_side=rng.choice(["hv", "lv"]),
+                                          tap_neutral=0, tap_min=-2, tap_max=2, tap_step_percent=2.5,
+                                          tap_pos=rng.choice([-2, 0, 0, 1]), tap_changer_type="Ratio",
+                                          max_loading_percent=rng.choice([50.0, 80.0, 100.0]), parallel=rng.choice([1, 1, 2]))
+    mode = rng.choice(["export", "import", "both"])
+    if mode in ("export", "both"):
+        s = pp.create_sgen(net, lv, p_mw=0.5, q_mvar=0.0, controllable=True, min_p_mw=0.0, max_p_mw=rng.choice([3.0, 5.0]),
+                           min_q_mvar=-0.5, max_q_mvar=0.5)
+        pp.create_poly_cost(net, s, "sgen", cp1_eur_per_mw=-3.0)
+    if mode in ("import", "both"):
+        l = pp.create_load(net, lv, p_mw=0.5, q_mvar=0.0, controllable=True, min_p_mw=0.0, max_p_mw=rng.choice([3.0, 5.0]),
+                           min_q_mvar=0.0, max_q_mvar=0.25)
+        pp.create_poly_cost(net, l, "load", cp1_eur_per_mw=-8.0 if mode == "import" else -1.0)
+    return mode
+
+
 def gen_case(rng, k):
     net = G.gen_net(rng, pwl=False, quad=(k % 2 == 0), q_cost=False, controllable_cols=True, tight=(k % 3 != 0), oos=0.12)
-    # keep the feasible set non-empty: fixed gens sit at the ext_grid voltage
-    if len(net.gen):
-        net.gen["vm_pu"] = float(net.ext_grid.vm_pu.iloc[0])
+    vm_eg = float(net.ext_grid.vm_pu.iloc[0])
+    # keep the feasible set non-empty: fixed gens sit at the ext_grid voltage; controllable gens get their own
+    # setpoints (they matter for init="pf") and in half of the cases narrow reactive limits that bind there
+    for i in net.gen.index:
+        if not bool(net.gen.controllable.at[i]):
+            net.gen.at[i, "vm_pu"] = vm_eg
+        else:
+            net.gen.at[i, "vm_pu"] = rng.choice([vm_eg, 0.99, 1.02, 1.03])
+            if rng.random() < 0.5:
+                net.gen.at[i, "min_q_mvar"], net.gen.at[i, "max_q_mvar"] = -0.125, rng.choice([0.125, 0.25])
     if rng.random() < 0.3:
         net.ext_grid["min_p_mw"] = float("nan")
         net.ext_grid["max_q_mvar"] = float("nan")
-    # the cost sign defect of C17 makes load costs concave; keep the cost side benign here
+    # dcline setpoints of all three kinds: forward (> 0), reverse (< 0) and exactly 0 (treated as reverse)
+    for i in net.dcline.index:
+        if rng.random() < 0.25:
+            net.dcline.at[i, "p_mw"] = 0.0
+    # keep the cost side convex
     for i in net.poly_cost.index:
         if net.poly_cost.at[i, "et"] in G.NEG:
             net.poly_cost.at[i, "cp2_eur_per_mw2"] = 0.0
             net.poly_cost.at[i, "cp0_eur"] = 0.0
+    if rng.random() < 0.55:
+        add_trafo(net, rng)
     return net
 
 
@@ -386,7 +452,8 @@ def run(ctx):
     for k in range(ctx.n(70, 800)):
         net = gen_case(rng, k)
         ac = (k % 4 != 3)
-        one_case(ctx, net, ac, "ac" if ac else "dc", terms, pend, sample=k < 3)
+        init = rng.choice(["flat", "pf", "pf", "results"]) if ac else "flat"
+        one_case(ctx, net, ac, "ac" if ac else "dc", terms, pend, sample=k < 3, init=init)
     model = ctx.coq_eval("c16", "Base.QN C16.Model", terms, shard=400)
     compare(ctx, pend, model)
 
@@ -395,7 +462,7 @@ def replay(ctx, rec):
     case = rec.get("case", rec)
     if "net" in case:
         terms, pend = [], []
-        one_case(ctx, pp.from_json_string(case["net"]), case.get("ac", True), "replay", terms, pend, sample=True)
+        one_case(ctx, pp.from_json_string(case["net"]), case.get("ac", True), "replay", terms, pend, sample=True, init=case.get("init", "flat"))
         compare(ctx, pend, ctx.coq_eval("c16", "Base.QN C16.Model", terms, shard=400))
     else:
         run(ctx)
